@@ -4,6 +4,7 @@ import (
 	"context"
 	"fmt"
 	"net/http"
+	"strings"
 
 	"github.com/thushan/olla/internal/adapter/registry"
 	"github.com/thushan/olla/internal/core/constants"
@@ -56,7 +57,7 @@ func (a *Application) createProviderProfile(providerType string) *domain.Request
 // Unlike the main proxy which balances across all endpoints, this constrains
 // traffic to a specific provider type (e.g., only Ollama instances).
 func (a *Application) providerProxyHandler(w http.ResponseWriter, r *http.Request) {
-	providerType, _, ok := extractProviderFromPath(r.URL.Path)
+	providerType, remainingPath, ok := extractProviderFromPath(r.URL.Path)
 	if !ok {
 		http.Error(w, "Invalid path format", http.StatusBadRequest)
 		return
@@ -79,6 +80,11 @@ func (a *Application) providerProxyHandler(w http.ResponseWriter, r *http.Reques
 	// The proxy needs to know which prefix to strip before forwarding.
 	// This mimics the behaviour of the main router for consistency.
 	providerPrefix := getProviderPrefix(providerType)
+	// strip the prefix as the client spelled it: the provider name has been normalised
+	// (lmstudio, lm_studio -> lm-studio), the path has not
+	if strings.HasSuffix(r.URL.Path, remainingPath) {
+		providerPrefix = strings.TrimSuffix(r.URL.Path, remainingPath)
+	}
 	ctx = context.WithValue(ctx, constants.ContextRoutePrefixKey, providerPrefix)
 	r = r.WithContext(ctx)
 
